@@ -215,7 +215,7 @@ pub struct DiscountCase {
 
 fn discount_case() -> impl Strategy<Value = DiscountCase> {
     let f = || prop_oneof![4 => 0u128..=UNIT, 1 => Just(UNIT), 1 => Just(0u128), 1 => (UNIT + 1)..=(2 * UNIT)];
-    (0u8..=15, proptest::collection::vec(f(), 16), prop_oneof![4 => 0u128..=UNIT, 1 => Just(UNIT), 1 => Just(0u128)], 0u8..=17, 0u8..4)
+    (0u8..=15, proptest::collection::vec(f(), 16), prop_oneof![4 => 0u128..=UNIT, 1 => Just(UNIT), 1 => Just(0u128), 1 => (UNIT + 1)..=(2 * UNIT)], 0u8..=17, 0u8..4)
         .prop_map(|(ranks, mut factors, referred, rank, keep_invalid)| {
             if keep_invalid != 0 {
                 // three quarters of the cases carry a fully valid table
@@ -261,6 +261,17 @@ fn check_discount(c: &DiscountCase, rec: &mut Rec) -> Result<(), String> {
             rec.class("rank_above_max_rejected");
             continue;
         }
+        if referred && c.referred > UNIT {
+            // the referral discount factor is a plain store factor (no validation on insert): above 100 %
+            // the combination 1-(1-a)(1-b) is undefined; program and SDK must both refuse, or agree on a
+            // value within 0..=100 %
+            match (&got, &got_sdk) {
+                (Err(_), Err(_)) => rec.class("referral_discount_above_100_percent_refused"),
+                (Ok(d), Ok(d_sdk)) if d == d_sdk && *d <= UNIT => rec.class("referral_discount_above_100_percent_clamped"),
+                _ => return Err(format!("referral discount factor {} above 100 %: program {:?}, SDK {:?}", c.referred, got.as_ref().ok(), got_sdk.as_ref().ok())),
+            }
+            continue;
+        }
         let d = got.map_err(|e| format!("discount failed: {e}"))?;
         let d_sdk = got_sdk.map_err(|e| format!("SDK discount failed: {e}"))?;
         if d != d_sdk {
@@ -290,7 +301,7 @@ fn check_discount(c: &DiscountCase, rec: &mut Rec) -> Result<(), String> {
 }
 
 pub fn run_c31(ctx: &mut Ctx) {
-    ctx.rule("cases = rank table size 0..=15, 16 rank discount factors (<= 100 %, exactly 100 %, 0, and > 100 % to test the setter), referral discount 0..=100 %, rank 0..=17; oracle = setter accepts iff all factors <= 100 %; rank > max rank rejected by program and SDK; 0 <= d <= 100 %; unreferred d == rank factor; referred d >= unreferred and |d - (1-(1-a)(1-b))| <= 1 unit (BigInt rational); the SDK (declare_program Store viewed over the same bytes) returns the identical value; non-trivial = rank within the table");
+    ctx.rule("cases = rank table size 0..=15, 16 rank discount factors (<= 100 %, exactly 100 %, 0, and > 100 % to test the setter), referral discount 0..=100 % and above 100 % (the store factor is not validated on insert: program and SDK must then both refuse or agree on a value within 0..=100 %), rank 0..=17; oracle = setter accepts iff all factors <= 100 %; rank > max rank rejected by program and SDK; 0 <= d <= 100 %; unreferred d == rank factor; referred d >= unreferred and |d - (1-(1-a)(1-b))| <= 1 unit (BigInt rational); the SDK (declare_program Store viewed over the same bytes) returns the identical value; non-trivial = rank within the table");
     ctx.assume("rank factors are installed through the `verif` hook (GtState::set_order_fee_discount_factors); the SDK Store is the same account bytes reinterpreted, so a layout mismatch would also surface here");
     let n = ctx.cases(100_000, 5_000_000);
     ctx.search("discount", n, discount_case, check_discount);
